@@ -355,7 +355,7 @@ if __name__ == "__main__":
         "net.IP.String / net.IPNet.String are used as map and datastore keys: modelled as injective on (family, value) resp. (family, network, prefix length); canonicalSubnet = ParseCIDR(ipnet.String()) transcribed as masking the network number; peer.ID.String (base58) injective; exercised by the correspondence, not proved",
         "multiaddrs are abstracted to what manet.ToIP returns (IP of a leading /ip4 | /ip6 | /ip6zone+/ip6 component, or none); the harness builds real multiaddrs of every form and cross-checks ToIP on each",
         "IP values have 4 or 16 bytes and masks are CIDR masks of 4 or 16 bytes (what net.ParseIP / ParseCIDR / CIDRMask produce); IPNets for which String() prints <nil> and non-contiguous masks are outside the model",
-        "the datastore is a key-value map with atomic Put/Delete and prefix Query (go-datastore MapDatastore behind namespace.Wrap): modelled, not verified",
+        "the datastore is a key-value map with atomic Put/Delete and prefix Query (go-datastore MapDatastore behind namespace.Wrap) that stores a COPY of the value it is given (BlockAddr passes the caller's own slice []byte(ip) to Put; the harness overwrites every net.IP / *net.IPNet after the call returns, so its datastore wrapper copies as a persistent store does): modelled, not verified",
         "each gater method is one critical section; a process stop is modelled at the only point where it matters (between the datastore write and the in-memory update) and before the write",
         "pipelines: every transport dial / handshake that is not gated is assumed to succeed (worst case for the property)",
     ]
@@ -380,7 +380,11 @@ if __name__ == "__main__":
              "delegate and counting transports, R without) over TCP (+ QUIC, WebSocket, WebTransport in the thorough tier), remote blocked by "
              "peer / address in each form / subnet, both directions, before and after a restart of the gater; outbound with every dial-context "
              "option (plain, WithForceDirectDial, WithSimultaneousConnect, WithAllowLimitedConn, WithNoDial) x blocked by address / subnet / peer; "
-             "inbound QUIC while a server-role hole punch of G towards the remote is in flight and the remote is blocked in between. Every observation is compared "
+             "inbound QUIC while a server-role hole punch of G towards the remote is in flight and the remote is blocked in between; "
+             "every call's net.IP / *net.IPNet argument is overwritten right after the call returns (caller-memory aliasing); address-form tables "
+             "through the real gatedMaListener.Accept over a fake manet listener (ip4, ws, mapped, ip6, link-local, /ip6zone/<zone>/ip6/fe80::.., relayed) "
+             "and through the real swarm dial path with a fake circuit transport (/ip4|ip6/<blocked>/.../p2p/<relay>/p2p-circuit), each x {address blocked in "
+             "each byte form, subnet blocked, after restart, unblocked, unrelated rules}. Every observation is compared "
              "with the Coq model (conform_case) and judged by the property monitor (monitor_case).",
         describe=describe, key=key, what=what, crosscheck=60,
     ))
